@@ -130,14 +130,14 @@ fn parse_at(cs: &[char], pos: &mut usize) -> Result<Sexp, String> {
             }
         }
         ')' => Err(format!("unexpected ) at {pos}")),
-        '\'' => {
+        q @ ('\'' | '"') => {
             let start = *pos;
             *pos += 1;
-            while *pos < cs.len() && cs[*pos] != '\'' {
+            while *pos < cs.len() && cs[*pos] != q {
                 *pos += 1;
             }
             if *pos >= cs.len() {
-                return Err("unclosed '".into());
+                return Err("unclosed quote".into());
             }
             *pos += 1;
             Ok(Sexp::Atom(cs[start..*pos].iter().collect()))
